@@ -73,7 +73,9 @@ class YAQLEvaluator(expr_base.Evaluator):
         r'(?:\bctx\("({})"\))'.format(_regex_var),  # extract x in ctx("x")
     ]
 
-    _engine = yaql.language.factory.YaqlFactory().create()
+    # The result of an expression is a JSON value: a set (i.e. the keys of a dict) is returned as a
+    # list. A set is not serializable and its order depends on the hash seed of the process.
+    _engine = yaql.language.factory.YaqlFactory().create(options={"yaql.convertSetsToLists": True})
     _root_ctx = yaql.create_context()
     _custom_functions = register_functions(_root_ctx)
 
